@@ -15,6 +15,7 @@ func init() {
 			"PV-API Docker labels are stored one by one under KeyToLabel(key); render order (C15)",
 			"PV-CMP comparators are not differences",
 			"no unsafe.String; batch aggregators stateless",
+			"PV-WHOLE SetAttrs visits every attribute whatever the map order; fetchContainers lists anew",
 		},
 		NotDecided: []string{"the race detector's dynamic view", "ties in unstable sorts (the property excludes equal timestamps)", "64-bit hash collisions", "map stores inside a region are assumed to hit distinct keys (commutative)"},
 		Rules: func(r *Run) {
@@ -34,6 +35,8 @@ func init() {
 			ruleComparatorsNoSubtraction(r, []string{cmdPkg, enginePkg, metricPkg, dockerlogPkg})
 			ruleNoUnsafeStrings(r, []string{enginePkg, dockerlogPkg})
 			ruleBatchAggregatorsStateless(r)
+			ruleSetAttrsWhole(r)
+			ruleFetchContainers(r)
 		},
 	})
 }
